@@ -107,6 +107,8 @@ class Pair:
         self.dflt = dflt
         self.srvA = mockrepo.fresh()
         self.B = mockrepo.fresh()
+        for c in (self.srvA, self.B):
+            mockrepo.register_method_provider(c)
         self.B.default_namespace = dflt
         self.wire, self.facade = facade.wire_connection(self.srvA, dflt)
         self.events = []
@@ -137,9 +139,9 @@ class Pair:
             for item in saw["params"]:
                 n, v = item[0], item[-1]
                 if saw["kind"] == "method":
-                    v = pywbem.cimvalue(v, item[1]) if not isinstance(
-                        v, (CIMInstanceName, CIMInstance, CIMClass)) \
-                        else v
+                    v = pywbem.cimvalue(v, item[1]) if item[1] and not \
+                        isinstance(v, (CIMInstanceName, CIMInstance,
+                                       CIMClass)) else v
                 sp.append(dict(name=n, dig=valdig(n, facade.Facade.typed(n, v))))
             ev = dict(op=op, wire_op=saw["name"] if op != "InvokeMethod"
                       else kwargs.get("MethodName", args[0] if args else ""),
@@ -339,9 +341,16 @@ def random_sequence(rng, pair, nops):
             pair.call("ExecQuery", ("WQL", "SELECT * FROM VN3"), kw, nsarg,
                       dict(QueryLanguage="WQL", Query="SELECT * FROM VN3"))
         elif r < 0.95:
-            obj = rng.choice([a(1), CIMClassName("VA", namespace=NS1), "VA"])
-            params = dict(P1=Uint8(3), P2="text",
-                          P3=[Uint32(1), Uint32(2)])
+            obj = rng.choice([a(1), CIMClassName("VA", namespace=NS1), "VA",
+                              CIMInstanceName("VM", keybindings={
+                                  "k": Uint32(1)}, namespace=NS1),
+                              CIMInstanceName("VM", keybindings={
+                                  "k": Uint32(1)}),
+                              CIMClassName("VM", namespace=NS1), "VM"])
+            params = dict(P1=Uint8(rng.choice([0, 3, 255])),
+                          P2=rng.choice(["text", "", "TRUE", "FALSE"]),
+                          P3=rng.choice([[Uint32(1), Uint32(2)],
+                                         [Uint32(70000)]]))
             srcns = getattr(obj, "namespace", None) or ""
             pair.call("InvokeMethod", ("DoIt", obj), params, srcns,
                       dict(params), label="InvokeMethod(DoIt, %s)" % (obj,))
